@@ -354,7 +354,13 @@ pub fn generate(prop: &str, thorough: bool, rng: &mut Rng) -> Case {
             let loc = move |k: u64| -> u8 { if inmem_mod > 0 && k % inmem_mod == 1 { 1 } else { 0 } };
             let mix = Mix { insert: 45, writer: 0, get: 25, fetch: 8, contains: 0, remove: 6, clear: 0, evict_all: 6, wait: 6, reopen: 0, yld: 4 };
             let n = rng.below(20) * scale;
-            let classes = vec![0, 1, 1, 2, 4];
+            // a quarter of the runs: values the disk tier has to drop (larger than a block) among the others, and a write
+            // queue threshold of a few entries (the documented overload limits must only bite under real overload)
+            let overload = rng.chance(1, 4);
+            let classes = if overload { vec![0, 1, 1, 2, 4, 6, 6] } else { vec![0, 1, 1, 2, 4] };
+            if overload {
+                cfg.insert("submit_thr_pages".into(), 18 + rng.below(30) as i64);
+            }
             let mut ops = gen_ops(rng, n, keys, &mix, &classes, &loc);
             let allow_hold = rng.chance(1, 3);
             for op in ops.iter_mut() {
